@@ -155,7 +155,7 @@ def parse_template(path, specs_dir, seen=None, contracts_only=False):
                 if not mo:
                     raise UnitError('%s:%d: bad canary' % (path, i + 1))
                 canaries.append({'kind': 'mutation', 'id': mo.group(1), 'item': mo.group(2).strip(),
-                                 'from': mo.group(3).strip(), 'to': mo.group(4).strip()})
+                                 'from': mo.group(3).strip().replace('\\n', '\n'), 'to': mo.group(4).strip().replace('\\n', '\n')})
             elif st.startswith('//@'):
                 raise UnitError('%s:%d: directive outside block: %s' % (path, i + 1, st))
             else:
